@@ -14,7 +14,7 @@ ROOT = os.path.dirname(os.path.dirname(os.path.abspath(__file__)))
 
 from pyvc import loader
 from pyvc.core import REG, MODELS
-from pyvc.runner import verify_contract, verify_lemma, UnitResult
+from pyvc.runner import verify_contract, verify_lemma, UnitResult, finish_all
 from pyvc.discharge import get_model, discharge
 from pyvc import replay as replay_mod
 from checks.plan import PLAN
@@ -133,6 +133,36 @@ def handle_failure(prop, unit, ob, sidecars, timeout_ms):
     return write_replay(prop, unit, ob, payload), reproduced
 
 
+def run_fuzz_all(units, plan, tier, seed):
+    import concurrent.futures as cf
+    from pyvc import fuzz
+    if os.environ.get("VERIF_NO_FUZZ"):
+        return {}
+    todo = []
+    for u in units:
+        if u.kind != "function" or u.status in ("anchor", "out_of_reach", "crash"):
+            continue
+        if u.status == "proved":
+            secs = 2 if tier == "quick" else 15
+        else:
+            secs = 20 if tier == "quick" else 90
+        todo.append((u, secs))
+    out = {}
+
+    def one(item):
+        u, secs = item
+        return u.name, fuzz.run_fuzz(u.name, plan["sidecars"], seed=seed, n=200000, seconds=secs)
+    with cf.ThreadPoolExecutor(max_workers=8) as ex:
+        for name, r in ex.map(one, todo):
+            out[name] = r
+    for u, _ in todo:
+        r = out.get(u.name, {})
+        u.fuzz = r
+        if "error" in r:
+            u.notes.append("native search error: " + r["error"][-200:])
+    return out
+
+
 def friendly_constraints(unit, ob, num):
     """Soft preference for human-scale witnesses (changes which witness is shown, never the verdict)."""
     out = []
@@ -179,19 +209,24 @@ def run_property(prop, tier, only=None, write_evidence=True):
             continue
         if only and not re.search(only, q):
             continue
-        u = verify_contract(c, timeout_ms=timeout_ms)
+        u = verify_contract(c, timeout_ms=timeout_ms, defer=True)
         units.append(u)
-        print(u.summary())
-        sys.stdout.flush()
     # --- lemmas over contracts
     for l in REG.lemmas:
         if prop not in l.prop:
             continue
         if only and not re.search(only, l.name):
             continue
-        u = verify_lemma(l, timeout_ms=timeout_ms)
+        u = verify_lemma(l, timeout_ms=timeout_ms, defer=True)
         units.append(u)
+    finish_all(units, timeout_ms=timeout_ms)
+    for u in units:
         print(u.summary())
+        if os.environ.get("VERIF_VERBOSE"):
+            for o in u.obligations:
+                if o.seconds > float(os.environ.get("VERIF_VERBOSE")):
+                    print("      %6.1fs %-8s %-28s %s" % (o.seconds, o.result, o.backend, o.full_name[:110]))
+    sys.stdout.flush()
     # --- other providers (C front end, wiring VCs, bounded stand-ins)
     for provider in plan.get("extra", []):
         modname, _, fname = provider.partition(":")
@@ -201,8 +236,31 @@ def run_property(prop, tier, only=None, write_evidence=True):
             print(u.summary())
             sys.stdout.flush()
 
+    # --- native cross-check / counterexample search (bounded; never counted as proof)
+    fuzz_results = run_fuzz_all(units, plan, tier, seed)
+
     known = load_known()
     violations, known_hits, undecided, errors = [], [], [], []
+    for u in units:
+        fr = fuzz_results.get(u.name)
+        if fr and fr.get("found"):
+            f = fr["found"]
+            class _Ob(object):
+                pass
+            ob = _Ob()
+            ob.name = "native:" + f["violated"][0][:100]
+            ob.full_name, ob.kind, ob.result, ob.backend, ob.seconds, ob.path = ob.name, "native", "violated", "cpython", 0.0, 0
+            k = known_match(prop, u, ob, known)
+            if k is not None and k["class"].strip() in ("*", "any"):
+                known_hits.append((u, ob, k))
+            else:
+                payload = {"property": prop, "unit": u.name, "obligation": ob.name, "kind": "native counterexample search",
+                           "proof_status_of_unit": u.status, "repo": loader.REPO, "failing_input": f,
+                           "note": "input found by the native search on the real code; contract clause evaluated natively",
+                           "reproduced_natively": True}
+                violations.append((u, ob, write_replay(prop, u, ob, payload), True))
+            if u.status == "undecided":
+                u.status = "failed-natively"
     for u in units:
         if u.status in ("anchor", "out_of_reach", "crash", "vacuous"):
             errors.append((u, "%s: %s %s" % (u.status, u.detail, ",".join(u.vacuous))))
@@ -277,6 +335,7 @@ def write_evidence_file(prop, tier, seed, plan, units, violations, known_hits, u
                          "canaries_failed_as_expected": sum(1 for o in u.obligations if o.expect_fail and o.result == "sat"),
                          "inlined_callees": u.inlined, "callee_contracts_used": u.used_contracts,
                          "leading_asserts_taken_as_requires": u.assumed_asserts,
+                         "native_search": (getattr(u, "fuzz", {}) or {}).get("stats"),
                          "seconds": round(u.seconds, 2), "detail": u.detail[:300]})
         for o in u.obligations[:2]:
             if len(samples) < 12 and not o.expect_fail:
